@@ -319,7 +319,20 @@ func (p *lifeProfile) onWrite(ev WatchEvent, old client.Object, by *Task) {
 		now := condTrue(nc, ct)
 		was := oldNC != nil && condTrue(oldNC, ct)
 		if was && !now && by != nil {
-			s.Violate("C14", "condition-regressed", "NodeClaim %s: %s went from True to %v (written by %s)", nc.Name, ct, nc.StatusConditions().Get(ct), by.Name())
+			// did the writer know the condition was True? (the version it reconciled)
+			knew := false
+			for _, r := range by.Reads {
+				if r.Kind == "NodeClaim" && len(r.Objs) > 0 {
+					if rn, ok := r.Objs[0].(*v1.NodeClaim); ok && rn.UID == nc.UID && condTrue(rn, ct) {
+						knew = true
+					}
+				}
+			}
+			if knew {
+				s.Violate("C14", "condition-regressed", "NodeClaim %s: %s went from True to %v, written by %s which had read it as True", nc.Name, ct, nc.StatusConditions().Get(ct), by.Name())
+			} else {
+				s.Violate("C14", "condition-regressed-by-stale-read", "NodeClaim %s: %s went from True to %v: %s reconciled a cached version older than the one that made it True and its un-versioned status merge patch replaced the whole condition list", nc.Name, ct, nc.StatusConditions().Get(ct), by.Name())
+			}
 		}
 		if now {
 			h[ct] = true
